@@ -79,7 +79,7 @@ def toldOf (told : List (Key × Nat)) (k : Key) : Option Nat := (told.find? (·.
 
 def mounted (s : KState) : Bool := s.w.kids.contains s.marker
 
-def render (st : DState) (s : KState) (log : Log) : String :=
+def render (st : DState) (s : KState) (log : Log) (failed : Nat := 0) : String :=
   let kids := " ".intercalate (s.w.kids.map (nodeName st s.marker))
   let items := s.w.storage.filterMap id
   let els := if st.isFor then "-" else
@@ -95,7 +95,8 @@ def render (st : DState) (s : KState) (log : Log) : String :=
         s!"{it.key}=" ++ (match ls.find? (fun (p : Key × Nat) => p.1 == it.key) with
           | some (_, v) => toString v | none => "?"))
     | none => ""
-  s!"{kids} ; e={els} ; b={b} ; u={u} ; {si}{l}"
+  let x := if failed == 0 then "" else s!" ; x={failed}"
+  s!"{kids} ; e={els} ; b={b} ; u={u} ; {si}{l}{x}"
 
 def sortNat (l : List Nat) : List Nat := l.mergeSort (· ≤ ·)
 
@@ -105,11 +106,15 @@ def domOrderOk (st : DState) (s : KState) (isMounted : Bool) : Bool :=
     s.w.kids == st.pre.map (·.1) ++ blocksOf s.w.storage ++ s.marker :: st.post.map (·.1)
   else s.w.kids == st.pre.map (·.1) ++ st.post.map (·.1)
 
-/-- `rebuild` of a list that is not in the DOM but still holds its old parent (F-C11-2): every insertion of a
-DOM move or an addition is a swallowed `NotFoundError` -/
-def staleParentErrors (s0 : KState) (to : List Key) : Bool :=
-  s0.parent && !mounted s0 &&
-    (((unpackMoves (diff s0.hashed to)).1.any (·.moveInDom)) || !(unpackMoves (diff s0.hashed to)).2.isEmpty)
+/-- `rebuild` of a list that is not in the DOM but still holds its old parent: every node of a DOM-moved or
+added item is inserted before a node that is not a child of the parent — a `NotFoundError` without effect,
+swallowed by tachys. The number of those failed calls is part of the observable (`x=<n>`), not of the verdict. -/
+def failedInsertions (s0 s1 : KState) (to : List Key) : Nat :=
+  if s0.parent && !mounted s0 then
+    let moved := domMovedKeys diff s0.hashed to
+    (((s1.w.storage.filterMap id).filter fun it => moved.contains it.key || !s0.hashed.contains it.key).map
+      (·.nodes.length)).sum
+  else 0
 
 /-- the property's clauses on one `update` (old state `s0`, new state `s1`); `none` = ok -/
 def judgeUpdate (st : DState) (s0 s1 : KState) (to : List Key) (isMounted : Bool) : Option String :=
@@ -133,7 +138,6 @@ def judgeUpdate (st : DState) (s0 s1 : KState) (to : List Key) (isMounted : Bool
             (let calls := log.setIndex.filter (·.1 == k)
              let fin := idxIn to k
              (idxIn frm k != fin && calls.isEmpty) || (calls.getLast?.any (·.2 != fin)))) then some "set-index" else
-  if staleParentErrors s0 to then some "stale-parent" else
   if !domOrderOk st s1 isMounted then
     -- `settledMonotone diff` holds for all duplicate-free sequences since the repair of F-C11-1
     -- (`C11_settled_monotone`); the class word is kept so that a regression would be named
@@ -143,14 +147,14 @@ def judgeUpdate (st : DState) (s0 s1 : KState) (to : List Key) (isMounted : Bool
 def verdictStr (v : Option String) : String :=
   match v with | none => "ok" | some c => "fail " ++ c
 
-def finish (st : DState) (s : KState) (v : Option String) : DState × String :=
+def finish (st : DState) (s : KState) (v : Option String) (failed : Nat := 0) : DState × String :=
   let isM := mounted s
   let st := { st with ks := some s, tainted := !domOrderOk st s isM, told := tell st.told s.w.log }
   -- `<ForEnumerate>`: every mounted item's index signal holds its position
   let v := if v.isNone && st.isFor &&
       (List.range s.hashed.length).any (fun j => (s.hashed[j]?.bind (toldOf st.told)) != some j)
     then some "set-index" else v
-  (st, render st s s.w.log ++ " ## " ++ verdictStr v)
+  (st, render st s s.w.log failed ++ " ## " ++ verdictStr v)
 
 def parseNats (ws : List String) : Option (List Nat) := ws.mapM String.toNat?
 
@@ -218,7 +222,7 @@ def doUpdate (st : DState) (s0 : KState) (to : List Key) : DState × String :=
       (k, match ls.find? (·.1 == k) with | some (_, v) => v | none => k * 10),
     inners := st.inners.filter fun p => to.contains p.1 }
   -- the list is expected in the DOM iff it was there before
-  finish st s1 (judgeUpdate st s0 s1 to (mounted s0))
+  finish st s1 (judgeUpdate st s0 s1 to (mounted s0)) (failedInsertions s0 s1 to)
 
 /-- shape `n`: rebuild the inner list of the outer item `o` -/
 def doInner (st : DState) (s0 : KState) (o : Key) (to : List Key) : DState × String :=
@@ -242,7 +246,7 @@ def doInner (st : DState) (s0 : KState) (o : Key) (to : List Key) : DState × St
       | v => v
     let v := if v.isNone && !domOrderOk st s1 (mounted s1) then some "dom-order" else v
     let st := { st with ks := some s1, tainted := !domOrderOk st s1 (mounted s1) }
-    (st, render st s1 inner1.w.log ++ " ## " ++ verdictStr v)
+    (st, render st s1 inner1.w.log (failedInsertions inner0 inner1 to) ++ " ## " ++ verdictStr v)
   | _, _ => (st, "bad-op")
 
 def splitSlash (ws : List String) : Option (List String × List String) :=
@@ -255,8 +259,6 @@ def nodupKeys (ks : List Nat) : Bool := ks.eraseDups.length == ks.length
 def doMount (st : DState) (s0 : KState) (unmount : Bool) (mount : Option Nat) : DState × String :=
   let s0 := { s0 with w := { s0.w with log := {} } }
   let s1 := if unmount then s0.unmount else s0
-  -- unmounting the outer items unmounts the nested lists: they forget their parent too
-  let st := if unmount then { st with inners := st.inners.map fun p => (p.1, { p.2 with parent := false }) } else st
   let (s2, st) :=
     match mount with
     | some jn =>
